@@ -61,6 +61,13 @@ def main():
         shutil.rmtree(scratch, ignore_errors=True)
     dst = os.path.join(VERIF, "seeded", sid)
     os.makedirs(dst, exist_ok=True)
+    prev_path = os.path.join(dst, "meta.json")
+    if os.path.exists(prev_path):  # keep notes and earlier unit-test confirmation
+        prev = json.load(open(prev_path))
+        if "strengthened" in prev:
+            meta["strengthened"] = prev["strengthened"]
+        if "unit_tests_with_patch" not in conf and "unit_tests_with_patch" in prev.get("confirmed", {}):
+            conf["unit_tests_with_patch"] = prev["confirmed"]["unit_tests_with_patch"]
     shutil.copy(os.path.join(src, "patch.diff"), dst)
     shutil.copy(os.path.join(src, "demo.py"), dst)
     meta["property"] = meta.get("property", pids[0])
